@@ -137,6 +137,45 @@ class Canon:
         return self.steps[self.terminal_at].i
 
 
+class CoarseCanon:
+    """
+    Stand-in for Canon built from ONE whole-buffer session (yields re-invoked on the same buffer).
+    Used only to check reference models when the one-byte schedule could not be completed.
+    """
+    coarse = True
+
+    def __init__(self, calls, n, indirect):
+        self.n = n
+        self.indirect = indirect
+        self.has_end = False
+        self.steps = []
+        self.eofs = []
+        self.start = None
+        self.findings = []
+        self.ok = True
+        self.terminal_at = None
+        self.states_seen = set()
+        pos = 0
+        for c in calls:
+            if c.kind == "START":
+                self.start = c
+                continue
+            if c.kind not in ("FEED", "REFEED", "REFEED1"):
+                continue
+            st = Step(c.pos if indirect else 0, c, pos, c.pos)
+            # the byte "in flight" is only known for terminal codes (the pointer rests on it)
+            self.steps.append(st)
+            if self.terminal_at is None and st.cls in TERMINAL:
+                self.terminal_at = len(self.steps) - 1
+                break
+            pos = c.pos
+
+    def consumed_before_terminal(self):
+        if self.terminal_at is None:
+            return None
+        return self.steps[self.terminal_at].pos_after
+
+
 def _eof_key(calls):
     if calls is None:
         return None
